@@ -570,7 +570,7 @@ def spec_rows(arows):
                         "trigger": False, "gen": "table-list-header"})
             tl = "seen"
         out.append({"path": ar.path, "tkey": ar.tkey, "logic": logic, "trigger": bool(ar.trigger), "row": ar.name,
-                    "params": ar.params})
+                    "params": ar.params, "kind": ("rep" if ar.rep else "group") if ar.kind == "begin" else "q"})
         if ar.kind == "begin" and ar.tl:
             tl = "armed"
             # the note carrying the group's label
@@ -582,6 +582,40 @@ def spec_rows(arows):
     out.append({"path": "/data/meta/instanceID", "tkey": "calculate",
                 "logic": [["readonly", "true()"], ["jr:preload", "uid"]], "trigger": False, "gen": "instanceID"})
     return out
+
+
+def spec_chains(srows):
+    """chains (name, kind of every ancestor and of the node itself) of the spec rows + the list of all elements'
+    chains: the input of `binds.spec_refs` (Spec.expectedR: C03's insert_xpaths from the row's own node)."""
+    kinds = {"/data": "group", "/data/meta": "group"}
+    for sr in srows:
+        kinds[sr["path"]] = sr.get("kind", "q")
+
+    def chain(path):
+        segs = path.strip("/").split("/")
+        return [[segs[i], kinds.get("/" + "/".join(segs[: i + 1]), "group")] for i in range(len(segs))]
+
+    paths = ["/data"]
+    for sr in srows:
+        segs = sr["path"].strip("/").split("/")
+        for i in range(2, len(segs) + 1):
+            pth = "/" + "/".join(segs[:i])
+            if pth not in paths:
+                paths.append(pth)
+    return [chain(pth) for pth in paths], [chain(sr["path"]) for sr in srows]
+
+
+def spec_expected(ctx, case):
+    """the property's expected attribute maps: Spec.expected (references to top-level questions); when that reading
+    does not cover a reference of the form, Spec.expectedR (references to any element, relative paths included)."""
+    exp = ctx.driver.call("binds.spec", root="data", tops=case["tops"], rows=case["spec_rows"])
+    if any(e is None for e in exp):
+        els, chains = spec_chains(case["spec_rows"])
+        rows = [dict(path=sr["path"], tkey=sr["tkey"], logic=sr["logic"], trigger=sr["trigger"], chain=ch)
+                for sr, ch in zip(case["spec_rows"], chains)]
+        exp = ctx.driver.call("binds.spec_refs", els=els, rows=rows)
+        ctx.count("oracle:spec-refs:" + ("outside" if any(e is None for e in exp) else "decides"))
+    return exp
 
 
 # ---------------------------------------------------------------- observation
@@ -676,7 +710,7 @@ def form_case(ctx, form, arows, meta):
         elif m["outcome"] == "error":
             ctx.mismatch("model rejects (duplicate column), implementation accepts", case, "ok", m)
         # ---- oracle on the implementation's output
-        exp = ctx.driver.call("binds.spec", root="data", tops=meta["tops"], rows=case["spec_rows"])
+        exp = spec_expected(ctx, case)
         oracle(ctx, case, obs, exp, itext_ids(r["xform"]))
         nontrivial = any(sr["logic"] and "row" in sr for sr in case["spec_rows"])
         ctx.count("types:" + str(len({sr["tkey"] for sr in case["spec_rows"]})))
@@ -894,7 +928,7 @@ def replay(ctx, payload, bs):
             except NotWellFormed as e:
                 ctx.fail(Failure("xform-not-wellformed", str(e), case))
                 return False
-            exp = ctx.driver.call("binds.spec", root="data", tops=case["tops"], rows=case["spec_rows"])
+            exp = spec_expected(ctx, case)
             oracle(ctx, case, obs, exp, itext_ids(r["xform"]))
             rows = [[[k, v] for k, v in row.items() if v not in (None, "")] for row in form["survey"]]
             m = ctx.driver.call("binds.model", headers=form["survey_cols"], rows=rows, lists=["l1", "l2"], root="data", dl="default")
